@@ -60,9 +60,11 @@ func pool(t *gen.Ty, full bool) []*ref.V {
 		return []*ref.V{ref.TimeV(t0), ref.TimeV(t0.Add(time.Second)), ref.TimeV(time.Unix(0, 0)), ref.TimeV(time.Unix(1641092645, 0))}
 	case tyLNum.Canon():
 		return []*ref.V{ref.ListV(gen.Num), ref.ListV(gen.Num, nums(1)...), ref.ListV(gen.Num, nums(1, 2)...), ref.ListV(gen.Num, nums(2, 1)...),
-			ref.ListV(gen.Num, nums(1, 1, 2)...), ref.ListV(gen.Num, nums(0.5, -1)...), ref.ListV(gen.Num, nums(1e300, gen.Pow63, math.Copysign(0, -1))...)}
+			ref.ListV(gen.Num, nums(1, 1, 2)...), ref.ListV(gen.Num, nums(0.5, -1)...), ref.ListV(gen.Num, nums(1e300, gen.Pow63, math.Copysign(0, -1))...),
+			ref.ListV(gen.Num, nums(1, 2, 3)...), ref.ListV(gen.Num, nums(3, 1)...), ref.ListV(gen.Num, nums(3, 2, 1, 2, 3)...)}
 	case tyLStr.Canon():
-		return []*ref.V{ref.ListV(gen.Str), ref.ListV(gen.Str, strs("a")...), ref.ListV(gen.Str, strs("a", "b")...), ref.ListV(gen.Str, strs("b", "a", "a")...)}
+		return []*ref.V{ref.ListV(gen.Str), ref.ListV(gen.Str, strs("a")...), ref.ListV(gen.Str, strs("a", "b")...), ref.ListV(gen.Str, strs("b", "a", "a")...),
+			ref.ListV(gen.Str, strs("a", "b", "c")...), ref.ListV(gen.Str, strs("c", "a")...)}
 	case tyLObj.Canon():
 		return []*ref.V{ref.ListV(tyOAB), ref.ListV(tyOAB, oab(1, "x")), ref.ListV(tyOAB, oab(1, "x"), oba(1, "x")), ref.ListV(tyOAB, oba(2, "y"), oab(1, "x"))}
 	case tyMSN.Canon():
